@@ -309,6 +309,16 @@ def scenarios_c14(r, tier):
             for nl in ('', '\n'):
                 k += 1
                 out.append(mk_route(routes[k % len(routes)], (f + b + nl).encode('utf-8'), [] if k % 3 else ['--no-preserve-shebang']))
+    # the size rule under EVERY single flag (no option may switch it off), on sources that grow, stay equal, or use CRLF line ends
+    growers = [b'x=1e-5', b"print('\\a')", b'x=1e-5\r\ny=2', b'x=1e-5\r\ny=2\r\nz=3\r\n', b'a=1\r\nb=2\r\n', b'EPSILON=1e-5\nassert EPSILON', b'if __debug__:x=1e-5', b"'doc'\nx=1e-5"]
+    k = 0
+    for fl in FLAG_LIST:
+        for g in growers[:3] if tier == 'quick' else growers:
+            k += 1
+            out.append(mk_route(routes[k % len(routes)], g, [fl]))
+    for g in growers:
+        for rt in routes:
+            out.append(mk_route(rt, g, []))
     for sb in ('#!/bin/sh', '#!/bin/sh\n', '#!/bin/sh\r\n', '#!x'):
         for rt in routes[:3]:
             out.append(mk_route(rt, sb.encode(), []))
